@@ -367,8 +367,25 @@ def message_text_intact(ck, F, rid, consequence):
         ini = [i for i in ct.inits if i.get("member") == LMc + "::m_message" and isinstance(i.get("e"), dict)]
         ok = len(mp) == 1 and len(ini) == 1 and is_ref_to(skip_copies(ini[0]["e"]), mp[0]["decl"])
         body_writes = [n for n in ct.all_nodes() if n.get("k") == "member" and n.get("name") == LMc + "::m_message" and write_kind(ct, n)]
-        ck.ob(rid, sitestr(ct), ok and not body_writes, "LogMessage stores the message text it is given, unchanged" if (ok and not body_writes) else
-              "LogMessage initialises its text with %s instead of the message it was given: %s" % (describe(ini[0]["e"])[:60] if ini else "nothing", consequence), key="LogMessage|text-intact")
+        verdict, why = (True, "") if ok and not body_writes else (False, "")
+        if not ok and not body_writes and len(mp) == 1 and len(ini) == 1:
+            # a deep copy is as good as the string itself when it is given the length: QString(p.constData(), p.size()).  Without the length the
+            # pointer is read as NUL-terminated text and everything behind the first U+0000 is gone
+            e_ = skip_copies(ini[0]["e"])
+            ptr = lambda x: is_call(x, ("QString::unicode", "QString::constData", "QString::data", "QString::utf16")) and is_ref_to(skip_copies(x).get("obj"), mp[0]["decl"])
+            size = lambda x: is_call(x, ("QString::size", "QString::length", "QString::count")) and is_ref_to(skip_copies(x).get("obj"), mp[0]["decl"])
+            args_ = [a for a in (e_.get("args") or []) if a.get("k") != "defaultarg"] if isinstance(e_, dict) and e_.get("k") in ("construct", "call") else []
+            LOSSY = ("trimmed", "simplified", "chopped", "left", "right", "mid", "normalized", "toLower", "toUpper", "toCaseFolded", "remove", "replace", "section", "toHtmlEscaped", "fromLatin1", "toLatin1", "fromLocal8Bit")
+            if args_ and ptr(args_[0]) and len(args_) >= 2 and size(args_[1]):
+                verdict = True
+            elif args_ and ptr(args_[0]) and len(args_) == 1:
+                verdict, why = False, " (the pointer is read as NUL-terminated text: everything behind the first U+0000 is dropped)"
+            elif any(x.get("k") == "call" and strip_tmpl(x.get("callee") or "").split("::")[-1] in LOSSY for x in walk(e_)):
+                verdict = False
+            else:
+                verdict = None
+        ck.ob(rid, sitestr(ct), verdict, "LogMessage stores the message text it is given, unchanged" if verdict else
+              "LogMessage initialises its text with %s instead of the message it was given%s: %s" % (describe(ini[0]["e"])[:60] if ini else "nothing", why, consequence), key="LogMessage|text-intact")
     acc = F.fn(LMc + "::message")
     rs = returns(acc)
     oka = len(rs) == 1 and is_this_field(rs[0].get("e"), LMc + "::m_message")
